@@ -136,9 +136,15 @@ struct DumpEntry {
     waker: Option<usize>, // data pointer
 }
 
-fn parse_wheel(rt: &TimerRuntime) -> (u64, Vec<DumpEntry>) {
+/// The generation counter is reported when the struct has such a field (`None` otherwise: the
+/// harness does not depend on HOW `insert` makes its keys distinct — the monitors judge the keys
+/// themselves; the correspondence line then shows `g=?`).
+fn parse_wheel(rt: &TimerRuntime) -> (Option<u64>, Vec<DumpEntry>) {
     let s = format!("{rt:?}");
-    let (g, mut rest) = num_after(&s, "TimerRuntime { generation: ").expect("wheel debug");
+    let (g, mut rest) = match num_after(&s, "TimerRuntime { generation: ") {
+        Some((g, rest)) => (Some(g as u64), rest),
+        None => (None, &s[..]),
+    };
     let mut out = vec![];
     while let Some((sec, r)) = num_after(rest, "TimerKey { deadline: Instant { tv_sec: ") {
         let (ns, r) = num_after(r, "tv_nsec: ").unwrap();
@@ -155,7 +161,7 @@ fn parse_wheel(rt: &TimerRuntime) -> (u64, Vec<DumpEntry>) {
         out.push(DumpEntry { deadline_ns: sec * 1_000_000_000 + ns, generation: kg as u64, waker });
         rest = r;
     }
-    (g as u64, out)
+    (g, out)
 }
 
 fn key_generation(k: &TimerKey) -> u64 {
@@ -236,6 +242,7 @@ impl WheelRun {
             parts.push(format!("{d}:{}:{w}", e.generation));
         }
         let rc: Vec<String> = self.recs.iter().map(|r| (Arc::strong_count(r) - 2).to_string()).collect();
+        let g = g.map_or("?".to_string(), |g| g.to_string());
         format!("g={g} {} rc={}", if parts.is_empty() { ".".into() } else { parts.join(",") }, rc.join(","))
     }
 
@@ -456,6 +463,36 @@ fn run_wheel(lines: &[String], grid_ns: u64, ex: &mut Exec) -> Result<Vec<String
             }
             _ => "bad-op".to_string(),
         };
+        // never early, whatever happened around it: a timer that was neither cancelled nor expired by
+        // a `wake` and whose deadline lies in a later cell than the clock is not completed
+        for h in 0..r.handles.len() {
+            if r.live[h] && r.handles[h].1 > r.t && r.rt.is_completed(&r.handles[h].0) {
+                ex.fail(
+                    "C09:completed-early",
+                    format!("handle {h} (deadline {}) reported completed at t={} after `{line}` without having been cancelled", r.handles[h].1, r.t),
+                );
+                r.live[h] = false;
+            }
+        }
+        // no lost wake: the waker registered last for a pending timer is still the one in the map
+        if !r.panicked {
+            let (_, es) = parse_wheel(&r.rt);
+            for h in 0..r.handles.len() {
+                if !r.live[h] || r.rt.is_completed(&r.handles[h].0) {
+                    continue;
+                }
+                let Some(wk) = r.wk_of[h] else { continue };
+                let kg = key_generation(&r.handles[h].0);
+                let dl = instant_ns(r.at(r.handles[h].1));
+                let want = Arc::as_ptr(&r.recs[wk]) as usize;
+                if let Some(e) = es.iter().find(|e| e.generation == kg && e.deadline_ns == dl) {
+                    if e.waker != Some(want) {
+                        ex.fail("C09:waker-lost", format!("handle {h}: registered waker w{wk} no longer in the map after `{line}`"));
+                        r.wk_of[h] = None;
+                    }
+                }
+            }
+        }
         out.push(o);
     }
     // a dropped timer leaves nothing behind: cancel every key, the map and the waker clones are gone
@@ -681,10 +718,21 @@ async fn run_task(sh: Rc<Shared>, id: usize, spec: String) {
                         flag.set(true);
                     };
                     sh.waiting.borrow_mut().insert(id, a.min(limit));
-                    let r = timeout_at(limit, fut).await;
+                    let to = timeout_at(limit, fut);
+                    // (session 3) the verdict below presupposes that the limit had not passed yet when
+                    // the timeout was created: a thread descheduled between `sleep_until(a)` and
+                    // `timeout_at(limit, ..)` until after `limit` (seen once, rt59 `t,16,16`, on a machine
+                    // with load 30+) leaves the inner timer registered but not yet swept and the limit
+                    // already reached — Elapsed is then what the code must answer. Such a run is re-run.
+                    let created = Instant::now();
+                    let r = to.await;
                     sh.waiting.borrow_mut().remove(&id);
                     if r.is_err() && a <= limit {
-                        sh.fail("C09:timeout-lost-inner", format!("{spec}: Elapsed although the inner deadline is not later"));
+                        if created < limit {
+                            sh.fail("C09:timeout-lost-inner", format!("{spec}: Elapsed although the inner deadline is not later"));
+                        } else {
+                            sh.max_late.set(sh.max_late.get().max(DISTURBED + Duration::from_millis(1)));
+                        }
                     }
                     r
                 }
@@ -748,6 +796,56 @@ async fn run_task(sh: Rc<Shared>, id: usize, spec: String) {
                 delivered.push(v);
             }
             format!("ticks#{n_d}")
+        }
+        ["e", d, keep] => {
+            // timers sharing ONE deadline `Instant`: create A(d), B(d), poll B once (its waker is
+            // registered), drop A, create C(d), then drop C (keep = 0) or keep it unpolled until B is done
+            // (keep = 1). B must not complete before d, and its task must be woken at d.
+            let deadline = sh.off(parse_off(d));
+            let a = sleep_until(deadline);
+            let mut b = std::pin::pin!(sleep_until(deadline));
+            let first = futures_util::poll!(b.as_mut());
+            drop(a);
+            let c = sleep_until(deadline);
+            let c = if *keep == "1" { Some(c) } else { drop(c); None };
+            if first.is_pending() {
+                if futures_util::poll!(b.as_mut()).is_ready() && Instant::now() < deadline {
+                    sh.fail("C09:early-fire", format!("{spec}: the surviving sleep is ready before the shared deadline after a sibling was dropped"));
+                }
+                sh.waiting.borrow_mut().insert(id, deadline);
+                // (polling a completed TimerFuture again is allowed: it asks the wheel `is_completed`)
+                b.as_mut().await;
+                sh.waiting.borrow_mut().remove(&id);
+            }
+            sh.judge(&spec, deadline);
+            drop(c);
+            "fired".to_string()
+        }
+        ["y"] => {
+            // a task that is runnable again at the end of every executor tick (it yields by waking
+            // itself) until every other task is done: `Executor::tick` keeps reporting remaining tasks,
+            // the loop of `block_on` never reaches an idle driver poll. Timers must be swept all the same.
+            loop {
+                let others_done = {
+                    let toks = sh.tokens.borrow();
+                    toks.iter().enumerate().all(|(i, t)| i == id || t.is_some() || sh.busy_ids.borrow().contains(&i))
+                };
+                if others_done || !sh.busy_iteration() {
+                    break;
+                }
+                let mut yielded = false;
+                std::future::poll_fn(|cx| {
+                    if yielded {
+                        Poll::Ready(())
+                    } else {
+                        yielded = true;
+                        cx.waker().wake_by_ref();
+                        Poll::Pending
+                    }
+                })
+                .await;
+            }
+            "busy".to_string()
         }
         ["z"] => {
             // a task that keeps completing cheap I/O (1-byte reads of /dev/zero) until every other
@@ -880,7 +978,7 @@ fn horizon_ms(tasks: &[&str]) -> u64 {
     for t in tasks {
         let p: Vec<&str> = t.split(',').collect();
         match p.as_slice() {
-            ["s", d] | ["d", d, _] => h = h.max(parse_off(d)),
+            ["s", d] | ["d", d, _] | ["e", d, _] => h = h.max(parse_off(d)),
             ["t", a, l] => {
                 h = h.max(parse_off(l));
                 if let Ok(a) = a.parse::<i64>() {
@@ -919,7 +1017,7 @@ fn run_rt_once(drv: &str, lp: &str, tasks_s: &str) -> RtOut {
         overdue: RefCell::new(HashMap::new()),
         stop_busy: Cell::new(false),
         give_up: Cell::new(None),
-        busy_ids: RefCell::new(tasks.iter().enumerate().filter(|(_, t)| **t == "z").map(|(i, _)| i).collect()),
+        busy_ids: RefCell::new(tasks.iter().enumerate().filter(|(_, t)| **t == "z" || **t == "y").map(|(i, _)| i).collect()),
     });
     let give_up = sh.t0 + Duration::from_millis(horizon_ms(&tasks)) + TOL + Duration::from_millis(1500);
     sh.give_up.set(Some(give_up));
@@ -1343,6 +1441,94 @@ fn gen_wheel_case(rng: &mut Rng) -> Vec<String> {
     lines
 }
 
+/// Timers sharing one deadline with drops in between: `ins d` twice or more, wakers registered,
+/// an older one cancelled, a new one for the same deadline inserted (and often cancelled again),
+/// then the clock reaches `d` and `wake` must expire exactly the survivors and invoke their wakers.
+fn gen_wheel_shared_case(rng: &mut Rng) -> Vec<String> {
+    let t0 = rng.range(3, 8);
+    let mut lines = vec![format!("wheel {t0}")];
+    let d = t0 + rng.range(1, 3);
+    let mut n = 0u64;
+    let mut alive: Vec<u64> = vec![];
+    let rounds = rng.range(1, 3);
+    let first = rng.range(2, 4);
+    for _ in 0..first {
+        lines.push(format!("ins {d}"));
+        alive.push(n);
+        n += 1;
+    }
+    for h in alive.clone() {
+        if rng.chance(3, 4) {
+            let op = if rng.chance(1, 2) { "upd" } else { "poll" };
+            lines.push(format!("{op} {h} {}", rng.below(N_WAKERS as u64)));
+        }
+    }
+    for _ in 0..rounds {
+        // drop one that is not the newest, create a new one for the same deadline
+        if alive.len() >= 2 {
+            let i = rng.below(alive.len() as u64 - 1) as usize;
+            lines.push(format!("can {}", alive.remove(i)));
+        }
+        lines.push(format!("ins {d}"));
+        let c = n;
+        n += 1;
+        match rng.below(3) {
+            0 => alive.push(c),
+            1 => {
+                lines.push(format!("upd {c} {}", rng.below(N_WAKERS as u64)));
+                alive.push(c);
+            }
+            _ => lines.push(format!("can {c}")),
+        }
+        for h in &alive {
+            lines.push(format!("done {h}"));
+        }
+        if rng.chance(1, 3) {
+            lines.push("mt".into());
+        }
+    }
+    lines.push("mt".into());
+    lines.push(format!("adv {}", d - t0));
+    lines.push("wake".into());
+    for h in 0..n {
+        lines.push(format!("done {h}"));
+    }
+    lines.push("mt".into());
+    lines
+}
+
+/// runtime-level scenarios of the two families added in session 3: timers sharing one deadline
+/// `Instant` (`e`), and a task that keeps yielding past the deadlines of the others (`y`) under plain
+/// `block_on` (the hand-driven loops of this harness do not go through `block_on_at`)
+fn gen_rt_line_s3(rng: &mut Rng) -> String {
+    let drv = *rng.pick(&["uring", "poll"]);
+    let mut tasks = vec![];
+    let yielding = rng.chance(1, 2);
+    let lp = if yielding { *rng.pick(&["block", "block", "busy"]) } else { *rng.pick(&["block", "manual", "busy", "spin"]) };
+    for _ in 0..rng.range(1, 4) {
+        let d = rng.range(2, 40) as i64;
+        let t = match rng.below(6) {
+            0 | 1 => format!("e,{d},{}", rng.below(2)),
+            2 => format!("s,{d}"),
+            3 => format!("t,n,{d}"),
+            4 => format!("t,{},{}", d, d + *rng.pick(&[0i64, 1, 5])),
+            _ => format!("d,{d},{}", rng.below(2)),
+        };
+        tasks.push(t);
+    }
+    if !yielding && !tasks.iter().any(|t| t.starts_with("e,")) {
+        tasks.push(format!("e,{},{}", rng.range(2, 40), rng.below(2)));
+    }
+    if yielding {
+        if !tasks.iter().any(|t| t.starts_with("s,") || t.starts_with("t,") || t.starts_with("e,")) {
+            tasks.push(format!("s,{}", rng.range(2, 40)));
+        }
+        let at = rng.below(tasks.len() as u64 + 1) as usize;
+        tasks.insert(at, "y".to_string());
+    }
+    format!("rt {drv} {lp} {}", tasks.join(";"))
+}
+
 fn gen_rt_line(rng: &mut Rng) -> String {
     let drv = *rng.pick(&["uring", "poll"]);
     // `busy` / `spin`: the runtime never idles in the driver while the timers become due
@@ -1446,12 +1632,18 @@ fn gen_ivx_line(rng: &mut Rng) -> String {
 
 fn generate(tier: &str, rng: &mut Rng) -> Vec<Case> {
     let (n_wheel, n_rt, n_ivx) = if tier == "thorough" { (20_000, 1200, 240) } else { (3_000, 240, 60) };
+    // the families added in session 3 draw from their own stream (the older cases stay what they were)
+    let mut rng3 = Rng::new(rng.0.wrapping_add(0xC09_0003));
+    let (n_shared, n_rt3) = if tier == "thorough" { (3000, 200) } else { (400, 40) };
     let mut cases = vec![];
     // runtime-level scenarios: generated first and executed right away on a pool of threads (each
     // scenario owns a runtime and mostly sleeps); `exec` finds the results in the cache
     let mut rt_lines = vec![];
     for _ in 0..n_rt {
         rt_lines.push(gen_rt_line(rng));
+    }
+    for _ in 0..n_rt3 {
+        rt_lines.push(gen_rt_line_s3(&mut rng3));
     }
     for _ in 0..n_ivx {
         rt_lines.push(gen_ivx_line(rng));
@@ -1491,6 +1683,9 @@ fn generate(tier: &str, rng: &mut Rng) -> Vec<Case> {
     }
     for i in 0..n_wheel {
         cases.push(Case { name: format!("w{i}"), lines: gen_wheel_case(rng) });
+    }
+    for i in 0..n_shared {
+        cases.push(Case { name: format!("wsh{i}"), lines: gen_wheel_shared_case(&mut rng3) });
     }
     cases
 }
